@@ -136,8 +136,9 @@ func (session *HermesSession) Run(workingDir string, args []string, logID string
 		if OUTDAY > 365 {
 			OUTDAY = 365
 		}
-		if OUTY >= g.ENDE {
-			g.ENDE = OUTY + 1
+		if OUTY > g.ENDE {
+			// the run is extended to the annual output date of the last year (that day included)
+			g.ENDE = OUTY
 		}
 
 		PR = SetPrognoseDate(PROG, &g)
